@@ -195,16 +195,29 @@ def check(R):
 
         def never_sent_cut():
             e = set()
-            for bb, te, fe in prims.cmp_guard_edges(sa, 'Gt', lambda s: any(sa.local_name(x[1]) == 'unacknowledged' for x in s if x[0] == 'arg') or any('wrapping' in c or 'Sub' in c or 'sub' in c for c in src_calls(s)) or True,
-                                                   lambda s: mentions(s, 'window_size'), symmetric=False):
-                e |= fe
-            for bb, te, fe in prims.cmp_guard_edges(sa, 'Le', lambda s: True, lambda s: mentions(s, 'window_size'), symmetric=False):
-                e |= te
+            bound = lambda s: mentions(s, 'window_size')
+            for op_, take in (('Gt', 'f'), ('Ge', 'f'), ('Le', 't'), ('Lt', 't')):
+                for bb, te, fe in prims.cmp_guard_edges(sa, op_, lambda s: True, bound, symmetric=False):
+                    e |= te if take == 't' else fe
             return e
         lvl = [i for i, j, s in sa.field_writes('level:' + S + 'SendWindow') if not (s[1].get('op') == 'use' and mentions(prims.sources(sa, s[1]['a'][0]), 'window_size') and not any(x.get('op') == 'bin' for x in [s[1]]))]
-        subw = [i for i, j, s in sa.stmts() if s[1].get('op') == 'bin' and s[1].get('b') in ('Sub', 'SubWithOverflow') and mentions(prims.sources(sa, s[1]['a'][0]), 'window_size')]
+        subw = [i for i, j, s in sa.stmts() if s[1].get('op') == 'bin' and s[1].get('b') in ('Sub', 'SubWithOverflow') and mentions(prims.sources(sa, s[1]['a'][0]), 'window_size')
+                and not any(f == 'level:' + S + 'SendWindow' for f in src_fields(prims.sources(sa, s[1]['a'][1])))]    # (window_size - level is the bound itself)
         R.floor('window_size - unacknowledged in SendWindow::accept_incoming', len(subw), 1)
         R.cut('P2', sa, 'compute window_size - unacknowledged', subw, 'unacknowledged <= window_size', never_sent_cut)
+        # "acknowledgement of something never sent": the acknowledged segment has to be one of those still unacknowledged - there are
+        # window_size - level of them, not window_size: the bound of the refusal involves the current level (right after the handshake,
+        # with one segment outstanding, an ACK for sequence number 253 was accepted)
+        bounds = []
+        for c in prims.compare_sites(sa, ops=('Gt', 'Ge', 'Le', 'Lt')):
+            for o in (c[3], c[4]):
+                so = prims.sources(sa, o)
+                if mentions(so, 'window_size'):
+                    bounds.append(so)
+        R.floor('comparison against the window in SendWindow::accept_incoming', len(bounds), 1)
+        R.expect('P10', sa.fn, 'an acknowledgement is refused unless it is for one of the window_size - level segments still unacknowledged',
+                 any(any(f == 'level:' + S + 'SendWindow' for f in src_fields(b_)) for b_ in bounds), 'unacknowledged is compared with window_size - level',
+                 'unacknowledged is compared with the whole window_size: an ACK for a sequence number that was never sent (or was acknowledged long ago) passes as long as it lies within one window')
         # the number of unacknowledged segments is the DIRECTED distance last_sent - ack modulo 256 (a wrapping subtraction, in that order):
         # a symmetric distance refuses a valid acknowledgement across the 255 -> 0 wrap and accepts one for a segment that was never sent
         wsub = [t for t in sa.calls() if any(n in ('<core::num::wrapping::Wrapping<u8> as core::ops::arith::Sub>::sub', 'core::num::<impl u8>::wrapping_sub') for n in t.callee_names())]
